@@ -144,7 +144,7 @@ CLAIMED = {
    design_ref="DESIGN.md §6 C04"),
  "C07": dict(
    category="proof",
-   text='Theorems in coq/Props/C07.v: the scope stack after choose/goto/undo/redo equals the one before, also when the operation raises (the finally); write-back never writes a parameter name; parameters shadow globals in the evaluation context; _bind_arguments equals the Python call rule (positional, keyword, default with earlier parameters visible, else ValueError).  Tie + oracles: parameterised stories with chains and failing navigations; independent Python binder vs the PARAMS line each passage prints; parameter names never in globals; depth 0 after every call; and the call-shape phase: random signatures x argument shapes x call-site kinds (top level and nested) - whatever compiles must bind at run time.',
+   text='Theorems in coq/Props/C07.v: the scope stack after choose/goto/undo/redo equals the one before, also when the operation raises (the finally); write-back never writes a parameter name; parameters shadow globals in the evaluation context; _bind_arguments equals the Python call rule (positional, keyword, default with earlier parameters visible, else ValueError); and the last clause of the property as theorems linking the compiler model to the engine model (Proofs/CallBindProofs.v): a call site the validator accepts never reaches either structural raise site of _bind_arguments (validated_call_binds: the engine function equals its variant with arbitrary computations at the missing-required and positional-and-keyword sites) and leaves no surplus positional or unknown keyword for the engine to ignore; it can fail only inside a default expression; this holds for every jump at any depth and every choice offered in any reachable state of every compiled story (compiled_jump_site_binds, compiled_offered_choice_binds); for whole histories the statement is _partial (one hypothesis: the engine re-reads "Target(args)" as the pair the compiler validated - proved for top-level jump and choice lines, differential for block-extractor tokens).  Tie + oracles: parameterised stories with chains and failing navigations; independent Python binder vs the PARAMS line each passage prints; parameter names never in globals; depth 0 after every call; and the call-shape phase: random signatures x argument shapes x call-site kinds (top level and nested) - whatever compiles must bind at run time, judged against Python\'s own call rule (valid calls must compile, invalid ones must not), plus every way of designating the initial passage x every signature.',
    note="Trusted: Coq kernel + vm_compute; the hand-written model Engine/Engine.v is tied to bardic/runtime/engine.py only by the correspondence run (generated stories x histories, every step's result kind and full view compared inside Coq); author code is an arbitrary oracle record in the theorems and the mini-Python of Lang/PyMini.v in the correspondence; harness (generator, term printers). Assumes effect-free display expressions/conditions and no in-place effect of a failing statement before it fails.",
    technique='Coq proofs over the engine model (arbitrary author-code oracle) + vm_compute correspondence on generated stories x histories + direct oracles',
    design_ref="DESIGN.md §6 C07"),
